@@ -18,6 +18,8 @@ CHECKS = {
                 tech="z3-term symbolic execution of every public op from enumerated audited pre-states + independent audit; CrossHair lemmas for unbounded charges", ref="§4 C01", engine="B+A"),
     "C02": dict(text=B + " Reference: numpy's own tensordot/einsum/trace on independently densified operands.", note=NOTE_B,
                 tech="z3-term symbolic execution of tensordot/matmul/trace/einsum vs dense reference (SMT-decided polynomial identities)", ref="§4 C02", engine="B"),
+    "C03": dict(text=B + " Reference: an independent dense graded-tensor calculus (inversion-count Koszul sign, ket-then-bra contraction sign, dummy odd legs, label canonicalisation). " + A, note=NOTE_B + " " + NOTE_A,
+                tech="z3-term symbolic execution of fermionic transpose/tensordot/@/trace/einsum vs graded-tensor oracle; CrossHair on calc_phase_permutation", ref="§4 C03", engine="B+A"),
     "C05": dict(text=B + " Every input entry is a distinct variable; the oracle locates it through the result's own sub-index table; unfuse must restore every entry; insert and concat must agree. " + A, note=NOTE_B + " " + NOTE_A,
                 tech="z3-term symbolic execution of fuse/unfuse (both strategies, cache on/off) + CrossHair on calc_fuse_group_info/accum_for_split", ref="§4 C05", engine="B+A"),
     "C08": dict(text=B + " Each operation through every call route; an operation may raise (all routes alike) but never return another value.", note=NOTE_B,
